@@ -66,6 +66,19 @@ def run(ctx):
                 xs = [x * sc for x in xs]
                 if p["target"] is not None:
                     p["target"], p["sd_hat"] = p["target"] * sc, p["sd_hat"] * sc
+            wname = draw_wrap(rng)       # scalars, lists, arrays, frames, series, views of a reused buffer - one kind or a mix per stream
+            if i % 5 == 1:
+                # raw sensor counts / pixel values / 16- and 32-bit counters: whole numbers handed over in the narrow integer type they were read in.
+                # The tests work on the VALUES; no intermediate may live in the narrow type (sums of a few such values leave its range)
+                kinds, lo, hi = rng.choice([(["uint8array", "uint8scalar"], 40, 250), (["uint16array"], 500, 60000), (["int16array", "int16scalar"], -30000, 30000),
+                                            (["int32array", "int32scalar"], 10 ** 7, 2 * 10 ** 9)])
+                a, b = min(xs), max(xs)
+                xs = [float(int(lo + (hi - lo) * (x - a) / (b - a))) for x in xs]
+                if kind == "Cusum" and p["target"] is not None:
+                    p["target"], p["sd_hat"] = float(int((lo + hi) / 2)), float(max(1, (hi - lo) // 8))
+                if kind == "PageHinkley":
+                    p["threshold"] = rng.choice([0.05, 0.2, 1.0])          # (Page-Hinkley's threshold is relative to the running mean)
+                wname = {"seed": rng.randrange(10 ** 6), "kinds": kinds if rng.random() < 0.5 else [rng.choice(kinds)]}
             script = [("update", x) for x in xs]
             if kind == "PageHinkley":
                 for _ in range(rng.randint(0, 3)):
@@ -74,7 +87,6 @@ def run(ctx):
                 script.insert(rng.randrange(1, len(script)), ("bad", rng.choice([np.array([[1.0, 2.0]]), [[1.0], [2.0]], np.zeros((2, 1))])))
             if i % 3 == 0:      # the very first call is refused (nothing is established yet, so it is the detector's own one-variable guard that refuses)
                 script.insert(0, ("bad", rng.choice([np.array([[1.0, 2.0]]), [3.0, 4.0], pd.DataFrame({"a": [1.0], "b": [2.0]})])))
-            wname = draw_wrap(rng)       # scalars, lists, arrays, frames, series, views of a reused buffer - one kind or a mix per stream
             t = runner(p, script, wrap_of(wname))
             t["wrap"] = wname
             traces.append(t)
